@@ -11,6 +11,7 @@ verus! {
 //@include common/tile_bbox.vrs
 //@include common/transform.vrs
 //@include common/pyramid_abs.vrs
+//@include common/pbf_blob.vrs
 
 pub assume_specification [i32::pow] (b: i32, e: u32) -> (r: i32)
 	requires b == 2, e < 31      // 2^31 does not fit an i32: overflow panic (debug) / wrap (release)
@@ -47,6 +48,15 @@ pub open spec fn is_agg(a: Agg, s: spec_fn(int) -> bool, r: Result<i32, VErr>) -
 }
 #[verifier::external_body]
 pub struct MBTilesReader { }
+// a prepared single-tile query (rusqlite Statement): the bytes of the record (column, row, zoom), Err if there is none (QueryReturnedNoRows)
+#[verifier::external_body] pub struct TileQuery { }
+impl TileQuery {
+	pub uninterp spec fn of(&self) -> MBTilesReader;
+	#[verifier::external_body]
+	pub fn q_tile(&mut self, c: u32, r: u32, z: u32) -> (res: Result<Vec<u8>, VErr>)
+		ensures res is Ok ==> old(self).of().tile_data(z as int, c as int, r as int) == Some(res.unwrap()@)
+	{ unimplemented!() }
+}
 impl MBTilesReader {
 	// the content of table `tiles`: (zoom_level, tile_column, tile_row) of every record (INTEGER columns read as i32)
 	pub uninterp spec fn has_tile(&self, z: int, c: int, r: int) -> bool;
@@ -73,6 +83,23 @@ impl MBTilesReader {
 		forall|z: int, c: int, r: int| #![trigger self.has_tile(z, c, r)] self.has_tile(z, c, r) && 0 <= z <= 31 && 0 <= c < pow2(z as nat) && 0 <= r < pow2(z as nat)
 			==> p.level(z).has(c, pow2(z as nat) - 1 - r)
 	}
+	// ---- single-tile lookup: SELECT tile_data FROM tiles WHERE tile_column = ? AND tile_row = ? AND zoom_level = ?  (rows are TMS)
+	pub uninterp spec fn tile_data(&self, z: int, c: int, r: int) -> Option<Seq<u8>>;
+	#[verifier::external_body]
+	pub fn prep_tile_query(&self) -> (r: Result<TileQuery, VErr>) ensures r is Ok ==> r.unwrap().of() == *self { unimplemented!() }
+//@extract fn file="versatiles_container/src/container/mbtiles/reader.rs" scope="impl TilesReaderTrait for MBTilesReader" name="get_tile_data"
+//@prerewrite "let conn = self.pool.get()?; let mut stmt = conn.prepare(\"SELECT tile_data FROM tiles WHERE tile_column = ? AND tile_row = ? AND zoom_level = ?\")?;" => "let mut stmt = self.prep_tile_query()?;"
+//@prerewrite "stmt.query_row([coord.x, max_index - coord.y, coord.z as u32], |row| { row.get::<_, Vec<u8>>(0) })" => "stmt.q_tile(coord.x, max_index - coord.y, coord.z as u32)"
+//@rewrite "Blob::from(vec)" => "Blob::from_vec(vec)" R6
+//@ret r
+//@spec
+		// any coordinate TileCoord3::new accepts (z <= 31; x and y are NOT limited to the grid: HTTP requests name them freely):
+		// a tile, nothing, or an error — never a panic (C19, C05); a tile is the record at the flipped row (C16, C01)
+		requires coord.z <= 31
+		ensures r is Ok ==> (match r.unwrap() { Some(b) => coord.valid() && self.tile_data(coord.z as int, coord.x as int, pow2(coord.z as nat) - 1 - coord.y) == Some(b@), None => true }),
+//@start
+		proof { lemma_pow2_bound(coord.z as nat); }
+//@end
 //@extract fn file="versatiles_container/src/container/mbtiles/reader.rs" scope="impl MBTilesReader" name="get_bbox_pyramid"
 //@prerewrite "self.simple_query(\"MIN(zoom_level)\", \"\")" => "self.q_zoom(Agg::Min)" optional
 //@prerewrite "self.simple_query(\"MAX(zoom_level)\", \"\")" => "self.q_zoom(Agg::Max)" optional
